@@ -188,7 +188,30 @@ class StmtMixin(ExprMixin):
                     continue
                 if star:
                     if len(target.elts) != 1:
-                        raise Unsupported("starred unpacking with other targets", target)
+                        # `a, *rest, z = seq`: fixed elements from both ends, the starred target takes what is between
+                        i, n = star[0], len(target.elts)
+                        front, back = list(items[:i]), list(items[len(items) - (n - i - 1):]) if n - i - 1 else []
+                        if len(star) != 1 or any(isinstance(x, Seg) for x in front + back) or len(items) < n - 1:
+                            if len(items) < n - 1 and not any(isinstance(x, Seg) for x in items):
+                                yield st1, ("raise", ExcVal("ValueError"))
+                                continue
+                            raise Unsupported("starred unpacking around a segment of unknown length", target)
+                        mid = items[i:len(items) - (n - i - 1)]
+                        st2, r = self.alloc(st1, "list", None, items=tuple(mid))
+                        vals = front + [r] + back
+
+                        def go2(st: State, k: int) -> Out:
+                            if k == n:
+                                yield st, NORMAL
+                                return
+                            tk = target.elts[k].value if isinstance(target.elts[k], ast.Starred) else target.elts[k]  # type: ignore[attr-defined]
+                            for st3, out in self.assign(tk, vals[k], st, ctx):
+                                if out[0] == "normal":
+                                    yield from go2(st3, k + 1)
+                                else:
+                                    yield st3, out
+                        yield from go2(st2, 0)
+                        continue
                     st2, r = self.alloc(st1, "list", None, items=tuple(items))
                     yield from self.assign(target.elts[0].value, r, st2, ctx)  # type: ignore[attr-defined]
                     continue
